@@ -57,6 +57,7 @@ pub fn run(kind: &str, args: &[String]) -> i32 {
     let file = std::fs::File::open(&args[0]).expect("cases file");
     let mut rep = Report::new();
     let mut queries: Vec<Value> = vec![];
+    let mut mapping: Vec<u8> = vec![];
     for (idx, line) in BufReader::new(file).lines().enumerate() {
         let line = line.unwrap();
         if line.trim().is_empty() {
@@ -66,6 +67,63 @@ pub fn run(kind: &str, args: &[String]) -> i32 {
         rep.cases += 1;
         match kind {
             "syntax" => syntax(&mut rep, idx, &case),
+            "roundtrip" => {
+                if case.get("mapping").is_some() {
+                    rep.cases -= 1;
+                    continue;
+                }
+                let got = guarded(|| crate::traces::roundtrip(&case["levels"]));
+                rep.check(idx, "print/try_parse", got, &case["want"]);
+            }
+            "text" => {
+                if let Some(m) = case.get("mapping") {
+                    mapping = enc::from_bytes(m);
+                    rep.cases -= 1;
+                    continue;
+                }
+                let text = crate::handles::utf8(&case["text"]);
+                let mapped = crate::traces::remap_text(&mapping, &text);
+                let unmapped = crate::traces::remap_text(b"", &text);
+                for h in ["mapper", "cache"] {
+                    rep.check(idx, &format!("remap_stacktrace/{h}"), Ok(mapped[h].clone()), &case["want"]["mapped"]);
+                    rep.check(idx, &format!("remap_stacktrace/empty-mapping/{h}"), Ok(unmapped[h].clone()), &case["want"]["unmapped"]);
+                }
+            }
+            "typed" => {
+                if let Some(m) = case.get("mapping") {
+                    mapping = enc::from_bytes(m);
+                    rep.cases -= 1;
+                    continue;
+                }
+                let mapped = crate::traces::remap_typed(&mapping, &case["levels"]);
+                let unmapped = crate::traces::remap_typed(b"", &case["levels"]);
+                let canonical = case["want"]["agrees_with_text"].as_bool().unwrap();
+                for h in ["mapper", "cache"] {
+                    rep.check(idx, &format!("remap_stacktrace_typed/{h}"), Ok(mapped[h]["typed"].clone()), &case["want"]["typed"]);
+                    rep.check(idx, &format!("remap_stacktrace_typed/empty-mapping/{h}"), Ok(unmapped[h]["typed"].clone()), &case["want"]["typed_unmapped"]);
+                    if canonical {
+                        rep.check(idx, &format!("typed-vs-text/{h}"), Ok(mapped[h]["agrees_with_text"].clone()), &json!(true));
+                    }
+                }
+            }
+            "signature" => {
+                if let Some(m) = case.get("mapping") {
+                    mapping = enc::from_bytes(m);
+                    rep.cases -= 1;
+                    continue;
+                }
+                let sig = crate::handles::utf8(&case["sig"]);
+                let got = crate::traces::signature(&mapping, &sig);
+                if case["class"] == "unspecified" {
+                    // outside the stated classes: only agreement of the two implementations
+                    rep.check(idx, "deobfuscate_signature/mapper-vs-cache", Ok(got["cache"].clone()), &got["mapper"]);
+                    rep.check(idx, "deobfuscate_signature/no-panic", Ok(json!(got["mapper"].get("panic").is_some())), &json!(false));
+                } else {
+                    for h in ["mapper", "cache"] {
+                        rep.check(idx, &format!("deobfuscate_signature/{h}"), Ok(got[h].clone()), &case["want"]);
+                    }
+                }
+            }
             "retrace" => retrace(&mut rep, idx, &case, &mut queries, args.get(1).map(|s| s.as_str()).unwrap_or("all")),
             "meta" => {
                 let src = enc::from_bytes(&case["src"]);
